@@ -52,7 +52,205 @@ pub fn scope(prop: &str, tier: &str) -> MScope {
 
 fn base_items(prop: &str, tier: &str) -> usize { let s = scope(prop, tier); (s.trees.len() + s.chunk - 1) / s.chunk }
 /// C14: a second pass over the same trees for the rename operations on a kernel without renameat2(2) (seccomp ENOSYS)
-pub fn n_items(prop: &str, tier: &str) -> usize { let n = base_items(prop, tier); if prop == "C14" { 2 * n } else { n } }
+pub fn n_items(prop: &str, tier: &str) -> usize { plain_items(prop, tier) + CALLERS.len() }
+fn plain_items(prop: &str, tier: &str) -> usize { let n = base_items(prop, tier); if prop == "C14" { 2 * n } else { n } }
+
+/// Callers other than root for the last work items: (name, uid, every capability dropped)
+const CALLERS: [(&str, u32, bool); 2] = [("uid1000", 1000, false), ("root-nocaps", 0, true)];
+
+/// Run `f` in a forked child that has taken on the caller's identity (the reference effect must be produced by the same
+/// user as the library call it is compared with) and hand its result back.
+fn as_caller<T: serde::Serialize + serde::de::DeserializeOwned>(uid: u32, drop_caps: bool, f: impl FnOnce() -> T) -> MResult<T> {
+    let mut fds = [0i32; 2];
+    if unsafe { libc::pipe2(fds.as_mut_ptr(), libc::O_CLOEXEC) } != 0 { return mach("pipe2"); }
+    let pid = unsafe { libc::fork() };
+    if pid < 0 { return mach("fork"); }
+    if pid == 0 {
+        unsafe {
+            libc::close(fds[0]);
+            if uid != 0 {
+                if libc::setgroups(0, std::ptr::null()) != 0 || libc::setresgid(uid, uid, uid) != 0 || libc::setresuid(uid, uid, uid) != 0 { libc::_exit(3); }
+            }
+            if drop_caps {
+                #[repr(C)] struct Hdr { version: u32, pid: i32 }
+                #[repr(C)] struct Data { effective: u32, permitted: u32, inheritable: u32 }
+                let hdr = Hdr { version: 0x20080522, pid: 0 };
+                let data = [Data { effective: 0, permitted: 0, inheritable: 0 }, Data { effective: 0, permitted: 0, inheritable: 0 }];
+                for cap in 0..64 { libc::prctl(libc::PR_CAPBSET_DROP, cap, 0, 0, 0); }
+                if libc::syscall(libc::SYS_capset, &hdr as *const Hdr, data.as_ptr()) != 0 { libc::_exit(4); }
+            }
+            libc::prctl(libc::PR_SET_DUMPABLE, 1, 0, 0, 0);
+        }
+        let r = f();
+        let js = serde_json::to_vec(&r).unwrap_or_default();
+        unsafe { libc::write(fds[1], js.as_ptr() as *const libc::c_void, js.len()); libc::_exit(0); }
+    }
+    unsafe { libc::close(fds[1]) };
+    let mut buf = Vec::new();
+    let mut chunk = [0u8; 4096];
+    loop {
+        let n = unsafe { libc::read(fds[0], chunk.as_mut_ptr() as *mut libc::c_void, chunk.len()) };
+        if n <= 0 { break; }
+        buf.extend_from_slice(&chunk[..n as usize]);
+    }
+    unsafe { libc::close(fds[0]) };
+    let mut st = 0;
+    unsafe { libc::waitpid(pid, &mut st, 0) };
+    if !libc::WIFEXITED(st) || libc::WEXITSTATUS(st) != 0 { return mach(format!("oracle child ended with status {:#x}", st)); }
+    serde_json::from_slice(&buf).map_err(|e| Mach(format!("oracle child answer: {}", e)))
+}
+
+/// The tree of the caller passes: entries of the caller (uid 1000), of root, restrictive modes, a world-writable and a sticky
+/// directory. (path, kind, owner, mode)
+fn caller_tree() -> Vec<(&'static str, &'static str, u32, u32)> {
+    vec![
+        ("a", "d", 1000, 0o755), ("a/f", "f", 1000, 0o644), ("a/sub", "d", 1000, 0o755), ("a/sub/g", "f", 1000, 0o644),
+        ("ro", "d", 1000, 0o555), ("ro/f", "f", 1000, 0o644), ("ro/sub", "d", 1000, 0o755), ("ro/sub/g", "f", 1000, 0o644),
+        ("wo", "d", 1000, 0o300), ("wo/f", "f", 1000, 0o644), ("wo/sub", "d", 1000, 0o755),
+        ("r", "d", 0, 0o755), ("r/f", "f", 0, 0o644), ("r/w", "d", 0, 0o777), ("r/w/f", "f", 0, 0o644), ("r/w/mine", "f", 1000, 0o644), ("r/w/d", "d", 0, 0o755), ("r/w/d/g", "f", 0, 0o644),
+        ("st", "d", 0, 0o1777), ("st/f", "f", 0, 0o644), ("st/mine", "f", 1000, 0o644), ("st/d", "d", 0, 0o755), ("st/myd", "d", 1000, 0o755), ("st/myd/g", "f", 1000, 0o644),
+        ("l", "l:ro", 1000, 0), ("lw", "l:r/w", 1000, 0), ("b", "f", 1000, 0o644),
+    ]
+}
+
+fn caller_paths() -> Vec<&'static str> {
+    vec!["a/new", "a/f", "a/sub", "a/new/deep", "ro/new", "ro/f", "ro/sub", "ro/sub/g", "ro/sub/new/x", "ro/new/y", "wo/new", "wo/f", "wo/sub", "wo/new/y", "r/new", "r/f", "r/w/new", "r/w/f", "r/w/mine", "r/w/d", "r/w", "r/w/new/z",
+         "st/f", "st/mine", "st/new/z", "st/d", "st/myd", "l/new", "l/sub/new", "lw/new", "lw/f", "a", "ro", "wo", "st", "r", "b", "x"]
+}
+
+fn rebuild_caller_tree() -> MResult<()> {
+    let root_out = out(ROOT_IN);
+    // restrictive modes of the previous round must not stop the clean-up (root with CAP_DAC_OVERRIDE: they do not)
+    clear_dir(&root_out)?;
+    let ents = caller_tree();
+    for (p, k, _, _) in &ents {
+        let full = cs(&format!("{}/{}", root_out, p));
+        let r = unsafe { match *k { "d" => libc::mkdir(full.as_ptr(), 0o755), "f" => { let fd = libc::open(full.as_ptr(), libc::O_CREAT | libc::O_WRONLY | libc::O_CLOEXEC, 0o644); if fd >= 0 { libc::close(fd); 0 } else { -1 } }, l => { let t = cs(&l[2..]); libc::symlink(t.as_ptr(), full.as_ptr()) } } };
+        if r != 0 { return mach(format!("build {}: errno {}", p, errno())); }
+    }
+    for (p, k, owner, mode) in ents.iter().rev() {
+        let full = cs(&format!("{}/{}", root_out, p));
+        unsafe { libc::lchown(full.as_ptr(), *owner, *owner); if !k.starts_with("l:") { libc::chmod(full.as_ptr(), *mode); } }
+    }
+    Ok(())
+}
+
+/// One caller pass: every operation of the property on the caller tree, performed by workers with the caller's identity on both
+/// backends; reference effect produced by a forked child with the same identity.
+fn run_caller_item(prop: &str, tier: &str, item_idx: usize, which: usize, only: Option<&Value>) -> MResult<ItemResult> {
+    let (who, uid, drop_caps) = CALLERS[which];
+    let th = tier == "thorough";
+    let mut res = ItemResult::default();
+    enter_jail()?;
+    build_decoys()?;
+    let umask = 0o022u32;
+    let setup = |deny: Vec<String>| Setup { jail: JAIL.into(), deny, uid, gid: uid, drop_caps, umask: Some(umask), ..Default::default() };
+    let (kn, en) = (format!("K-{}", who), format!("E-{}", who));
+    let mut k = Wk::spawn(&kn, &setup(vec![]))?;
+    let mut e = Wk::spawn(&en, &setup(vec!["openat2".into()]))?;
+    k.timeout_ms = 60_000; e.timeout_ms = 60_000;
+    let root_out = out(ROOT_IN);
+    let rootfd = open_path(&root_out)?;
+    let root_id = lstat(&root_out).map(|st| (st.dev, st.ino)).ok_or_else(|| Mach("root directory missing at item start".into()))?;
+    let tree_text = caller_tree().iter().map(|(p, k, o, m)| format!("{}{} u{} {:o}", p, if *k == "d" { "/" } else if *k == "f" { "" } else { &k[1..] }, o, m)).collect::<Vec<_>>().join(" ");
+    let mut states: std::collections::BTreeSet<u64> = Default::default();
+    rebuild_caller_tree()?;
+    let c0 = canon(&snap_all()?);
+    for path in caller_paths() {
+        for op in ops_for(prop, path, th) {
+            if let Some(o) = only { let want: Op = serde_json::from_value(o["op"].clone()).map_err(|e| Mach(format!("bad replay op: {}", e)))?; if want != op { continue; } }
+            let replay = json!({"engine": "mutmc", "item": item_idx, "tree_idx": 999_200 + which, "tree": tree_text, "op": op, "caller": who});
+            let desc0 = format!("caller {} on tree [{}] {}", who, tree_text, op.brief());
+            let mut outs: Vec<(String, Obs, Snap, Option<String>)> = Vec::new();
+            let mut undecided = false;
+            for (name, wk) in [(&kn, &mut k), (&en, &mut e)] {
+                rebuild_caller_tree()?;
+                let mut o = wk.one(op.clone().keep("r"))?;
+                let mut tries = 0;
+                while !o.ok && matches!(o.errno, Some(libc::EXDEV) | Some(libc::EAGAIN)) && tries < 30 { tries += 1; wk.one(Op::new("close_handle").handle("r"))?; rebuild_caller_tree()?; o = wk.one(op.clone().keep("r"))?; }
+                if !o.ok && o.msg.as_deref().map(|m| m.contains("racing filesystem changes caused openat2 to abort")).unwrap_or(false) { res.count("transient_undecided", 1); undecided = true; wk.one(Op::new("close_handle").handle("r"))?; break; }
+                if let Some(h) = &o.harness_error { return mach(format!("worker {}: {}", name, h)); }
+                let sn = snap_all()?;
+                let alive = lstat(&root_out).map(|st| (st.dev, st.ino) == root_id).unwrap_or(false);
+                if !alive { res.violate(format!("{}:{}:root-destroyed", name, op.name), format!("{} on {}: the root directory itself no longer exists afterwards", desc0, name), replay.clone()); return Ok(res); }
+                let hp = id_path(&sn, &o.fd);
+                wk.one(Op::new("close_handle").handle("r"))?;
+                outs.push((name.clone(), o, sn, hp));
+            }
+            if undecided { continue; }
+            let (ck, ce) = (canon(&outs[0].2), canon(&outs[1].2));
+            res.evaluations += 2; res.transitions += 2;
+            states.insert(hash64(&format!("{:?}", ck))); states.insert(hash64(&format!("{:?}", ce)));
+            res.outcome(format!("{}:{}:{}", who, op.name, errclass(&outs[0].1)));
+            if ck != c0 || !outs[0].1.ok { res.nontrivial += 1; }
+            for (bk, o, _, _) in &outs { if let Some(p) = &o.panic { res.violate(format!("{}:panic:{}", bk, op.name), format!("{} on {}: panic {}", desc0, bk, p), replay.clone()); } }
+            if prop == "C04" {
+                let (ok_, oe) = (&outs[0].1, &outs[1].1);
+                if errclass(ok_) != errclass(oe) {
+                    res.violate(format!("mut:{}:caller-{}:K={} E={}", op.name, who, errclass(ok_), errclass(oe)), format!("{}: kernel backend {} ({}), emulated backend {} ({})", desc0, errclass(ok_), ok_.msg.clone().unwrap_or_default(), errclass(oe), oe.msg.clone().unwrap_or_default()), replay.clone());
+                } else if ck != ce {
+                    res.violate(format!("mut:{}:caller-{}:tree-differs", op.name, who), format!("{}: resulting trees differ between backends: {}", desc0, canon_diff(&ck, &ce)), replay.clone());
+                } else if ok_.ok && (outs[0].3 != outs[1].3 || ok_.fd.as_ref().map(|f| (f.getfl & crate::lookup::GETFL_MASK, f.cloexec)) != oe.fd.as_ref().map(|f| (f.getfl & crate::lookup::GETFL_MASK, f.cloexec))) {
+                    res.violate(format!("mut:{}:caller-{}:handle-differs", op.name, who), format!("{}: returned descriptors differ: K {:?} vs E {:?}", desc0, outs[0].3, outs[1].3), replay.clone());
+                }
+                continue;
+            }
+            // reference effect, produced by the same user
+            rebuild_caller_tree()?;
+            let rfd = rootfd.as_raw_fd();
+            let (exp, want_id): (Expect, Option<(u64, u64)>) = match prop {
+                "C14" => (as_caller(uid, drop_caps, || oracle_single(rfd, &op))?, None),
+                "C13" => (as_caller(uid, drop_caps, || oracle_remove_all(rfd, &op))?, None),
+                _ => as_caller(uid, drop_caps, || oracle_mkdir_all(rfd, &op, umask))?,
+            };
+            let so = snap_all()?;
+            let co = canon(&so);
+            let want_path = want_id.and_then(|id| so.iter().find(|(_, n)| (n.dev, n.ino) == id).map(|(p, _)| p.clone()));
+            res.traces_validated += 1;
+            // C12/C13 promise effects for calls that succeed and confinement for calls that fail; they do not promise that the call
+            // succeeds wherever `mkdir -p` / `rm -r` would (the library needs read permission on directories it re-opens): a failing
+            // call is judged against the widest reference effect (the same operation done by root) - nothing outside it may change
+            if prop != "C14" {
+                rebuild_caller_tree()?;
+                let _ = match prop { "C13" => oracle_remove_all(rfd, &op), _ => oracle_mkdir_all(rfd, &op, umask).0 };
+                let cr = canon(&snap_all()?);
+                let mut all_failed_ok = true;
+                for (bk, o, sn, hp) in &outs {
+                    if o.panic.is_some() { continue; }
+                    let c = canon(sn);
+                    if o.ok {
+                        if exp != Expect::Errno(0) { res.violate(format!("{}:{}:caller:outcome:want={:?}:got=ok", bk, op.name, exp), format!("{} on {}: the statement's reference (same user) gives {:?}, libpathrs succeeds", desc0, bk, exp), replay.clone()); continue; }
+                        if c != co { res.violate(format!("{}:{}:caller:frame", bk, op.name), format!("{} on {}: resulting tree differs from the reference effect: {}", desc0, bk, canon_diff(&co, &c)), replay.clone()); continue; }
+                        if prop == "C12" && *hp != want_path { res.violate(format!("{}:mkdir_all:caller:handle", bk), format!("{} on {}: returned handle is {:?}, the path resolves to {:?}", desc0, bk, hp, want_path), replay.clone()); }
+                    } else {
+                        if exp == Expect::Errno(0) { res.count("stricter_than_reference", 1); }
+                        // every difference from the initial tree must also be a difference the widest reference effect makes
+                        let bad: Vec<String> = c.iter().filter(|(k, v)| match c0.get(*k) { Some(v0) => v0 != *v && cr.get(*k) != Some(*v), None => !cr.contains_key(*k) }).map(|(k, _)| format!("~{}", k)).chain(c0.keys().filter(|k| !c.contains_key(*k) && cr.contains_key(*k)).map(|k| format!("-{}", k))).take(5).collect();
+                        if !bad.is_empty() { all_failed_ok = false; res.violate(format!("{}:{}:caller:failed-call-collateral", bk, op.name), format!("{} on {} ({}): the failed call changed entries that even the complete reference effect leaves alone: {}", desc0, bk, errclass(o), bad.join(" ")), replay.clone()); }
+                    }
+                }
+                let _ = all_failed_ok;
+                continue;
+            }
+            for (bk, o, sn, hp) in &outs {
+                if o.panic.is_some() { continue; }
+                let c = canon(sn);
+                let got = if o.ok { 0 } else { o.errno.unwrap_or(-1) };
+                let mismatch = match &exp {
+                    Expect::Errno(w) => *w != got,
+                    Expect::Fails => o.ok,
+                    Expect::InvalidArgument => o.ok || !(o.kind.as_deref() == Some("InvalidArgument") || o.errno == Some(libc::EINVAL)),
+                };
+                if mismatch { res.violate(format!("{}:{}:caller:outcome:want={:?}:got={}", bk, op.name, exp, errclass(o)), format!("{} on {}: the statement's reference (same user) gives {:?}, libpathrs gives {} ({})", desc0, bk, exp, errclass(o), o.msg.clone().unwrap_or_default()), replay.clone()); continue; }
+                if c != co { res.violate(format!("{}:{}:caller:frame", bk, op.name), format!("{} on {} ({}): resulting tree differs from the reference effect: {}", desc0, bk, errclass(o), canon_diff(&co, &c)), replay.clone()); continue; }
+                if prop == "C12" && o.ok && *hp != want_path { res.violate(format!("{}:mkdir_all:caller:handle", bk), format!("{} on {}: returned handle is {:?}, the path resolves to {:?}", desc0, bk, hp, want_path), replay.clone()); }
+            }
+        }
+    }
+    res.count("trees", 1);
+    res.states = states.len() as u64;
+    Ok(res)
+}
 
 /// operations of one property for one path
 fn ops_for(prop: &str, path: &str, th: bool) -> Vec<Op> {
@@ -139,7 +337,7 @@ fn rebuild(tree: &TreeSpec) -> MResult<()> {
 }
 
 /// oracle side: what the statement says should happen, executed by the harness with raw syscalls on the rebuilt tree
-#[derive(Debug, Clone, PartialEq, Eq)]
+#[derive(Debug, Clone, PartialEq, Eq, serde::Serialize, serde::Deserialize)]
 enum Expect {
     /// errno (0 = success); None = the statement does not fix the errno, only that it fails
     Errno(i32),
@@ -225,7 +423,10 @@ fn oracle_remove_all(rootfd: i32, op: &Op) -> Expect {
     let rf = op.rflags.unwrap_or(0);
     let dir = match resolve_dir_rf(rootfd, &parent, rf) { Ok(d) => d, Err(e) => return Expect::Errno(e) };
     let full = format!("/proc/self/fd/{}/{}", dir.as_raw_fd(), name);
-    match lstat(&full) {
+    let probe = lstat(&full);
+    // a caller without search permission on the parent cannot even tell whether the name exists
+    if probe.is_none() { let e = errno(); if e != libc::ENOENT && e != libc::ENOTDIR { return Expect::Errno(e); } }
+    match probe {
         None => {
             // nothing by that name: if the parent is not even a directory the lookup fails with ENOTDIR; otherwise nothing to do
             match fstat(dir.as_raw_fd()) { Some(st) if st.is_dir() => Expect::Errno(0), _ => Expect::Errno(libc::ENOTDIR) }
@@ -297,6 +498,8 @@ fn canon_diff(a: &BTreeMap<String, String>, b: &BTreeMap<String, String>) -> Str
 fn errclass(o: &Obs) -> String { if o.panic.is_some() { "PANIC".into() } else if o.ok { "ok".into() } else { format!("{}/{}", errname(o.errno.unwrap_or(-1)), o.kind.clone().unwrap_or_default()) } }
 
 pub fn run_item(prop: &str, tier: &str, idx: usize, only: Option<&Value>) -> MResult<ItemResult> {
+    let np = plain_items(prop, tier);
+    if idx >= np { return run_caller_item(prop, tier, idx, idx - np, only); }
     let sc = scope(prop, tier);
     let mut res = ItemResult::default();
     enter_jail()?;
@@ -462,7 +665,7 @@ pub fn report(prop: &str, tier: &str) -> Report {
     };
     Report {
         level: if prop == "C04" { "exploration" } else { "model_checking" },
-        rule: format!("{} trees x {} path spellings (all sequences of <=2{} components over {{a,b,x,.,..}} with leading/trailing '/', '', '/', '//', empty and dot components, missing intermediate components) x {} ({} ops per path) x backends {{openat2, emulated}}; every case on a freshly built tree; Rust API flavour (RootRef, owned Root, clone of either) rotated over the work items; {}; states = distinct canonical trees reached, transitions = operation applications; non-trivial = the operation changed the tree or failed",
+        rule: format!("{} trees x {} path spellings (all sequences of <=2{} components over {{a,b,x,.,..}} with leading/trailing '/', '', '/', '//', empty and dot components, missing intermediate components) x {} ({} ops per path) x backends {{openat2, emulated}}; every case on a freshly built tree; plus two caller passes (uid 1000 without capabilities; root without capabilities) on a tree with unwritable / unreadable / root-owned / world-writable / sticky directories x 38 paths x the same operations, reference effect produced by a forked child with the caller's identity (C12/C13: failing calls judged for confinement only); Rust API flavour (RootRef, owned Root, clone of either) rotated over the work items; {}; states = distinct canonical trees reached, transitions = operation applications; non-trivial = the operation changed the tree or failed",
             sc.trees.len(), sc.paths.len(), if sc.thorough { "(+selected 3)" } else { "" }, what, nops,
             if prop == "C04" { "oracle: the two backends against each other (outcome class, errno, resulting tree, returned descriptor)" } else { "oracle: a twin tree on which the harness resolves the parent with openat2(RESOLVE_IN_ROOT) and issues the single raw *at call (rm -r / mkdir -p for C13/C12): same errno, isomorphic resulting filesystem including everything outside the root" }),
         assumptions: vec!["Linux 6.18 tmpfs semantics for the raw *at calls of the oracle twin".into(), "small-scope hypothesis (names a,b,x; depth <= 3)".into(), "kernel-without-openat2 simulated by seccomp ENOSYS".into()],
